@@ -509,6 +509,9 @@ impl<'a> Rw<'a> {
         if let syn::Expr::MethodCall(m) = &*mc.receiver {
             if m.method == "rev" && m.args.is_empty() {
                 if let syn::Expr::MethodCall(it) = &*m.receiver {
+                    if it.method == "map" && it.args.len() == 1 {
+                        return self.try_range_map_rev_fold(mc, it);
+                    }
                     return self.try_plain_fold(mc, it, true);
                 }
                 return false;
@@ -724,6 +727,46 @@ impl<'a> Rw<'a> {
         self.visit_expr(lo);
         self.visit_expr(hi);
         self.visit_expr(&cl.body);
+        true
+    }
+
+    /// R13: `(A..B).map(F).rev().fold(INIT, G)` -> `acc = INIT; for i in (A..B).rev() { acc = G(acc, F(i)) }`; F and G verbatim.
+    /// DROPPED: the order in which F is called relative to G (the adaptor chain calls F(i) right before G(.., F(i)), as the loop does).
+    fn try_range_map_rev_fold(&mut self, mc: &syn::ExprMethodCall, map: &syn::ExprMethodCall) -> bool {
+        let range = match &*map.receiver {
+            syn::Expr::Paren(p) => match &*p.expr { syn::Expr::Range(r) => r, _ => return false },
+            _ => return false,
+        };
+        let (lo, hi) = match (&range.start, &range.end, &range.limits) {
+            (Some(a), Some(b), syn::RangeLimits::HalfOpen(_)) => (a, b),
+            _ => return false,
+        };
+        let k = self.iter_chain_idx;
+        let ls = match self.spec.iter_loops.get(&k.to_string()).cloned() { Some(l) => l, None => return false };
+        self.iter_chain_idx += 1;
+        let (ms, _) = br(mc.span());
+        let (los, loe) = br(lo.span());
+        let (his, hie) = br(hi.span());
+        let (fs, fe) = br(map.args[0].span());
+        let (is_, ie) = br(mc.args[0].span());
+        let (gs, ge) = br(mc.args[1].span());
+        let (_, end) = br(mc.span());
+        let mut inv = String::new();
+        if !ls.invariant.is_empty() { inv.push_str(&format!(" invariant {},", ls.invariant.join(", "))); }
+        let dec = if ls.decreases.is_empty() { "__i - __lo".to_string() } else { ls.decreases.clone() };
+        self.replace_range(ms, los, "{ let __lo: usize = ".to_string(), "R13-range-map-rev-fold");
+        self.replace_range(loe, his, "; let __hi: usize = ".to_string(), "R13-range-map-rev-fold");
+        self.replace_range(hie, fs, "; let __f = ".to_string(), "R13-range-map-rev-fold");
+        self.replace_range(fe, is_, (if ls.acc_ty.is_empty() { "; let mut __acc = ".to_string() } else { format!("; let mut __acc: {} = ", ls.acc_ty) }), "R13-range-map-rev-fold");
+        self.replace_range(ie, gs, "; let __g = ".to_string(), "R13-range-map-rev-fold");
+        self.replace_range(ge, end, format!(
+            "; let mut __i: usize = if __hi > __lo {{ __hi }} else {{ __lo }}; while __i > __lo{} decreases {}, {{ __i -= 1; {} __acc = __g(__acc, __f(__i)); }} {} __acc }}",
+            inv, dec, ls.body_prologue, ls.after), "R13-range-map-rev-fold");
+        self.visit_expr(lo);
+        self.visit_expr(hi);
+        self.visit_expr(&map.args[0]);
+        self.visit_expr(&mc.args[0]);
+        self.visit_expr(&mc.args[1]);
         true
     }
 
